@@ -90,13 +90,14 @@ func DefaultRtpUnpackerFactory(payloadType base.AvPacketPt, clockRate int, maxSi
 	return NewRtpUnpackContainer(maxSize, protocol)
 }
 
-// rtpTimestamp2Ms rtp时间戳按clockRate转换为毫秒
+// rtpTimestamp2Ms rtp时间戳转换为毫秒
 //
-// clockRate小于1000时（合法的音视频时钟频率不会出现，只会来自错误的sdp）没有整数个tick对应1毫秒，按1个tick处理，避免除0
-func rtpTimestamp2Ms(timestamp uint32, clockRate int) int64 {
-	ticksPerMs := uint32(clockRate / 1000)
-	if ticksPerMs == 0 {
-		ticksPerMs = 1
+// 注意，不能写成`ts / uint32(clockRate/1000)`：
+// clockRate不是1000的整数倍时（比如44100、11025），误差会随着时间线性累积；clockRate小于1000时，除数为0
+func rtpTimestamp2Ms(ts uint32, clockRate int) int64 {
+	if clockRate <= 0 {
+		// sdp中没有有效的clock rate，无法换算
+		return int64(ts)
 	}
-	return int64(timestamp / ticksPerMs)
+	return int64(uint64(ts) * 1000 / uint64(clockRate))
 }
